@@ -1365,7 +1365,7 @@ class TransportLayerLogic:
 
     def clear_tx_queue(self) -> None:
         while not self.tx_queue.empty():
-            self.tx_queue.get_nowait()
+            self.tx_queue.get_nowait().complete(False)  # The request is dropped. Unblocks a blocking send()
 
     # Init the reception of a multi-pdu frame.
     def _start_reception_after_first_frame_if_valid(self, pdu: PDU) -> bool:
